@@ -133,6 +133,12 @@ impl SubscriptionActor {
                 _ = deleted => (),
                 _ = poll => (),
             }
+
+            // Shut the mailbox down in an orderly way instead of just dropping it: a request
+            // whose sender had already reserved its slot when the mailbox closed would
+            // otherwise be left in it, unanswered, for as long as its sender is around.
+            receiver.close();
+            while receiver.recv().await.is_some() {}
         });
 
         sender
